@@ -431,6 +431,29 @@ func genC02Short(g *Gen) {
 			}
 		}
 	}
+	// a frame gldap does not serve (every application tag, primitive and constructed) followed by
+	// a frame that is too short to be a message: whatever the first one leaves behind, the second
+	// is rejected like on a fresh connection
+	shorts := [][]byte{{0x30, 0x00}, {0x30, 0x03, 0x02, 0x01, 0x03}, {0x04, 0x02, 0x68, 0x69}, {0x05, 0x00}, {0x60, 0x00}, {0x30, 0x05, 0x02, 0x01, 0x03, 0x50, 0x00}}
+	lead := encodeReq(&TReq{Kind: "del", ID: 9, DN: []byte("cn=a")}).encode()
+	for tag := 0; tag <= 30; tag++ {
+		for _, cons := range []bool{false, true} {
+			var op *Node
+			if cons {
+				op = nApp(tag, nOct([]byte("cn=a")))
+			} else {
+				op = &Node{Cls: 64, Tag: tag, Data: []byte{1}}
+			}
+			first := nSeq(nInt(0, 2, 2), op).encode()
+			for si, sh := range shorts {
+				if g.tier != "thorough" && (tag+si)%3 != 0 && tag != 16 {
+					continue
+				}
+				g.emit("stream", hx(append(append([]byte{}, first...), sh...)))
+				g.emit("stream", hx(append(append(append([]byte{}, lead...), first...), sh...)))
+			}
+		}
+	}
 	n := 12
 	if g.tier == "thorough" {
 		n = 200
@@ -441,12 +464,12 @@ func genC02Short(g *Gen) {
 			q.Filter = &TFilter{Kind: "present", A: []byte("cn")}
 		}
 		frame := encodeReq(q).encode()
-		var lead []byte
+		var lead2 []byte
 		if i%3 == 1 {
-			lead = encodeReq(&TReq{Kind: "del", ID: 9, DN: []byte("cn=a")}).encode()
+			lead2 = lead
 		}
 		for k := 1; k < len(frame); k++ {
-			g.emit("stream", hx(append(append([]byte{}, lead...), frame[:k]...)))
+			g.emit("stream", hx(append(append([]byte{}, lead2...), frame[:k]...)))
 		}
 	}
 }
